@@ -8,6 +8,7 @@ a_u32 a_hash_bkdr(void const *str_, a_u32 val)
         for (; *str; ++str)
         {
             val = val * 131 + *str;
+            A_VERIF_HOOK(hash_bkdr_step)
         }
     }
     return val;
@@ -19,6 +20,7 @@ a_u32 a_hash_bkdr_(void const *ptr_, a_size siz, a_u32 val)
     for (; siz; --siz, ++ptr)
     {
         val = val * 131 + *ptr;
+        A_VERIF_HOOK(hash_bkdr__step)
     }
     return val;
 }
@@ -31,6 +33,7 @@ a_u32 a_hash_sdbm(void const *str_, a_u32 val)
         for (; *str; ++str)
         {
             val = val * 65599 + *str;
+            A_VERIF_HOOK(hash_sdbm_step)
         }
     }
     return val;
@@ -42,6 +45,7 @@ a_u32 a_hash_sdbm_(void const *ptr_, a_size siz, a_u32 val)
     for (; siz; --siz, ++ptr)
     {
         val = val * 65599 + *ptr;
+        A_VERIF_HOOK(hash_sdbm__step)
     }
     return val;
 }
